@@ -572,21 +572,42 @@ package client
 //@   property C03, C04, C15, C16
 //@   safety C02
 //@   bind H []*hNode := call client.(*hSet).getHandlers 1
+//@   bind Hs seq := after client.(*hSet).getHandlers 1 seqof(H)
 //@   bind p0 int := after client.(*hSet).getHandlers 1 $trlen
 //@   requires connInv(conn) && line != nil && setOK(hs)
-//@   modifies $tr, $held, $wg, elems(H)
+//@   modifies $tr, $wg, heap
 //@   ensures $held === old($held)
-//@   ensures p0 == old($trlen) + 2 && $tr[old($trlen)] == ev("rlock", hs.RWMutex)
-//@   ensures $trlen == p0 + 2 * len(H) + 1
+//@   ensures p0 == old($trlen) + 2 && $tr[old($trlen)] == ev("rlock", old(hs.RWMutex))
+//@   ensures $trlen == p0 + 2 * len(Hs) + 1 && len(Hs) >= 0
 //@   ensures fresh(wg) && wg != nil
-//@   ensures forall i int :: 0 <= i && i < len(H) ==> H[i] != nil
+//@   ensures forall i int :: 0 <= i && i < len(Hs) ==> Hs[i] != nil
 //@        && $tr[p0 + 2*i] == ev("wgadd", wg, "", 1)
-//@        && $tr[p0 + 2*i + 1] == ev("spawn", fnid("client.(*hSet).dispatch$1"), "", 0, H[i])
+//@        && $tr[p0 + 2*i + 1] == ev("spawn", fnid("client.(*hSet).dispatch$1"), "", 0, Hs[i])
 //@   ensures $tr[$trlen - 1] == ev("wgwait", wg)
+//@   ensures connInv(conn)
 //@   loop 0:
 //@     invariant 0 <= #i && #i <= len(H) && $trlen == p0 + 2 * #i && wgcount(wg) == #i
-//@     invariant $held === old($held)
+//@     invariant $held === old($held) && len(Hs) == len(H)
+//@     invariant forall i int :: 0 <= i && i < len(H) ==> Hs[i] == H[i] && H[i] != nil
 //@     invariant forall i int :: 0 <= i && i < #i ==>
 //@           $tr[p0 + 2*i] == ev("wgadd", wg, "", 1)
-//@        && $tr[p0 + 2*i + 1] == ev("spawn", fnid("client.(*hSet).dispatch$1"), "", 0, H[i])
+//@        && $tr[p0 + 2*i + 1] == ev("spawn", fnid("client.(*hSet).dispatch$1"), "", 0, Hs[i])
+//@ end
+
+// Conn.dispatch: internal handlers to completion, then the background set on
+// its own goroutine, then the foreground set to completion (C03, C05, C16).
+//@ func (*Conn).dispatch
+//@   property C03, C05, C16
+//@   safety C02
+//@   bind p1 int := after client.(*hSet).dispatch 1 $trlen
+//@   bind bg *hSet := after client.(*hSet).dispatch 1 conn.bgHandlers
+//@   bind fg *hSet := after client.(*hSet).dispatch 1 conn.fgHandlers
+//@   requires connInv(conn) && line != nil
+//@   modifies $tr, $wg, heap
+//@   ensures $held === old($held) && connInv(conn)
+//@   ensures $tr[old($trlen)] == ev("rlock", old(conn.intHandlers.RWMutex))
+//@   ensures old($trlen) + 3 <= p1 && $tr[p1 - 1].kind == kindof("wgwait")
+//@   ensures $tr[p1] == ev("spawn", fnid("client.(*hSet).dispatch"), "", conn, bg)
+//@   ensures $tr[p1 + 1] == ev("rlock", fg.RWMutex) && p1 + 4 <= $trlen
+//@   ensures $tr[$trlen - 1].kind == kindof("wgwait")
 //@ end
